@@ -320,6 +320,32 @@ def partial_model(s, tables, keep=KEEP_DEFAULT):
     return out
 
 
+KEEPS = [' ', '\\ ', '\n\\', '%\\{}', '', '~&', "-'", '\\$', '\t\r', '#^_ ']
+PARTIAL_KW = [{}, {'non_ascii_only': True}, {'replacement_latex_protection': 'braces-all'},
+              {'unknown_char_policy': 'replace'}, {'unknown_char_policy': 'unihex'},
+              {'conversion_rules': ['unicode-xml']}, {'unknown_char_warning': False},
+              {'replacement_latex_protection': 'none', 'unknown_char_policy': 'ignore'}]
+
+
+def check_partial_total(s, keep, kw, res):
+    """other configurations of the partial encoder: it returns a string and raises nothing
+    (no 'fail' policy is configured)"""
+    from pylatexenc.latexencode import PartialLatexToLatexEncoder
+    res.case()
+    case = {'kind': 'partial-total', 's': s, 'keep': keep, 'kw': kw}
+    try:
+        out = PartialLatexToLatexEncoder(keep_latex_chars=keep, **kw).unicode_to_latex(s)
+    except Exception as e:
+        res.fail(exc_key(e), exc_detail(e) + ' on %r with keep_latex_chars=%r %r' % (s, keep, kw),
+                 case)
+        return
+    if not isinstance(out, str):
+        res.fail('c04:partial-not-a-string', repr(type(out)), case)
+    res.label('partial:other-configuration')
+    if any(c in keep for c in s):
+        res.nontriv((s, keep, repr(kw)))
+
+
 def check_partial(s, res):
     from pylatexenc.latexencode import PartialLatexToLatexEncoder
     res.case()
@@ -418,6 +444,11 @@ def run_shard(shard, res):
         _, n, seed = shard
         strs = st.lists(st.sampled_from(PARTIAL_ALPHA), max_size=10).map(''.join)
         hyp_run(strs, lambda s: check_partial(s, res), n, seed)
+        wide = st.lists(st.one_of(st.sampled_from(PARTIAL_ALPHA), st.sampled_from(PARTIAL_ALPHA),
+                                  st.characters(blacklist_categories=('Cs',))),
+                        max_size=8).map(''.join)
+        hyp_run(st.tuples(wide, st.sampled_from(KEEPS + [KEEP_DEFAULT]), st.sampled_from(PARTIAL_KW)),
+                lambda t: check_partial_total(t[0], t[1], t[2], res), n // 2, seed + 7)
     elif kind == 'history':
         _, n, seed = shard
         call = st.tuples(st.lists(st.sampled_from(ALPHA[:-1] + extra[:40]), max_size=6).map(''.join),
@@ -450,6 +481,8 @@ def check_case(case, res):
         check_concat(case['a'], case['b'], case['opts'], res)
     elif k == 'partial':
         check_partial(case['s'], res)
+    elif k == 'partial-total':
+        check_partial_total(case['s'], case['keep'], case['kw'], res)
     else:
         check_history([tuple(c) for c in case['calls']], res)
 
